@@ -16,9 +16,11 @@ import Pycdlib.Model.Susp
 import Pycdlib.Model.Unicode
 import Pycdlib.Model.Udf
 import Pycdlib.Model.Boot
+import Pycdlib.Model.BootParse
 import Pycdlib.Model.Hybrid
 import Pycdlib.Model.Tools
 import Pycdlib.Model.Atomic
+import Pycdlib.Model.Cache
 namespace Pycdlib
 
 def parseCps (s : String) : Option (List Nat) :=
@@ -149,6 +151,37 @@ def dispatchPure (toks : List String) : Option String :=
   | ["bit", pvd, fsec, olen, hx] => do
     let b ← ofHex hx
     pure (toHex ((Boot.bootInfoTable (← pvd.toNat?) (← fsec.toNat?) (← olen.toNat?) (b.map (·.toNat))).map fun n => UInt8.ofNat n))
+  | "cacherun" :: toks => do
+    -- L<p> lookup, E<0|1>:<p>=<r>,... edit that sets the tree (clears or not), F forget everything
+    let parseOp : String → Option Cache.Op := fun t =>
+      if t.startsWith "L" then do pure (.lookup (← (t.drop 1).toString.toNat?))
+      else if t = "F" then some (.forget fun _ => false)
+      else if t.startsWith "E" then
+        match (t.drop 1).toString.splitOn ":" with
+        | [c, m] => do
+          let pairs : List (Nat × Nat) ← (if m = "" then some [] else (m.splitOn ",").mapM fun (kv : String) =>
+            match kv.splitOn "=" with
+            | [k, v] => do pure ((← k.toNat?), (← v.toNat?))
+            | _ => none)
+          pure (.edit (fun _ => fun q => (pairs.find? (·.1 = q)).map (·.2)) (c = "1"))
+        | _ => none
+      else none
+    let ops ← toks.mapM parseOp
+    let outs := (Cache.run { tree := fun _ => none, cache := [] } ops).2
+    let shown := (outs.zip ops).filterMap fun (o, op) =>
+      match op with
+      | .lookup _ => some (match o with | some r => toString r | none => "-")
+      | _ => none
+    pure (",".intercalate shown)
+  | ["eltparse", hx] => do
+    let b ← ofHex hx
+    let ent : Boot.Entry → String := fun e =>
+      s!"{if e.bootable then 1 else 0},{e.media},{e.loadSeg},{e.sysType},{e.count},{e.rba}"
+    match Boot.parseCatalog (b.map (·.toNat)) with
+    | none => pure "bad"
+    | some c =>
+      let secs := c.sections.map fun s => s!"{s.indicator},{s.platform},{s.declared}[{"/".intercalate (s.entries.map ent)}]"
+      pure s!"plat{c.platform} ini{ent c.initial} secs{";".intercalate secs} alone{"/".intercalate (c.standalone.map ent)}"
   | ["eltmedia", media, cnt] => do
     match Boot.mediaAndCount media (← cnt.toNat?) with
     | some (m, c) => pure s!"{m} {c}"
@@ -156,6 +189,10 @@ def dispatchPure (toks : List String) : Option String :=
   | ["calccc", size, heads, sectors, efi] => do
     let (cc, pad) := Hybrid.calcCc (← size.toNat?) (← heads.toNat?) (← sectors.toNat?) (efi = "1")
     pure s!"{cc} {pad}"
+  | ["mbrchs", cc, heads, sectors, offset] => do
+    let (eh, es, ec, psize) := Hybrid.endFields (← cc.toNat?) (← heads.toNat?) (← sectors.toNat?) (← offset.toNat?)
+    let (bh, bs, bc) := Hybrid.startChs (← offset.toNat?) (← heads.toNat?) (← sectors.toNat?)
+    pure s!"{bh} {bs} {bc} {eh} {es} {ec} {psize}"
   | ["crc16", hx] => do let b ← ofHex hx; pure (toString (crc16 (b.map (·.toNat))))
   | ["crc32", hx] => do let b ← ofHex hx; pure (toString (crc32 (b.map (·.toNat))))
   | ["eltcsum", hx] => do let b ← ofHex hx; pure (toString (elToritoChecksum (b.map (·.toNat))))
